@@ -52,6 +52,7 @@ func runC11(c *core.Ctx) {
 		return
 	}
 	c11Lifecycle(c, root)
+	c11KeepState(c, root)
 	c11Emit(c, root)
 	c11Gen(c, root)
 	c11Context(c, root)
